@@ -424,6 +424,8 @@ pub struct Vm {
   pub heap: Ghost<Map<(InstRef, int), Value>>,
   /// ghost: the call this handler handed to resolve_call: (callee, argument count, operand stack at that moment)
   pub called: Ghost<Option<(Value, u8, Seq<Value>)>>,
+  /// ghost (iterops unit): the by-name invocation an iteration handler handed to Vm::invoke: (receiver, method name, argument count, stack)
+  pub invoked: Ghost<Option<(Value, LyStr, u8, Seq<Value>)>>,
   /// ghost (calls unit): leaf calls made by the real resolve_call, in order
   pub call_log: Ghost<Seq<Dispatched>>,
   /// the placeholder captures of functions without captures
@@ -447,7 +449,7 @@ pub struct Vm {
 }
 pub enum ClassOp { NewClass(ClassRef, LyStr), AddMethod(ClassRef, LyStr, Value), AddField(ClassRef, LyStr), AddStatic(ClassRef, LyStr, Value) }
 /// the ghost components only some units look at are untouched
-pub open spec fn aux_same(o: &Vm, n: &Vm) -> bool { n.ran == o.ran && n.module_cache == o.module_cache && n.spawned == o.spawned && n.boxes == o.boxes && n.nested == o.nested && n.exit_code == o.exit_code && n.class_log == o.class_log && n.modsyms == o.modsyms && n.modnames == o.modnames }
+pub open spec fn aux_same(o: &Vm, n: &Vm) -> bool { n.invoked == o.invoked && n.ran == o.ran && n.module_cache == o.module_cache && n.spawned == o.spawned && n.boxes == o.boxes && n.nested == o.nested && n.exit_code == o.exit_code && n.class_log == o.class_log && n.modsyms == o.modsyms && n.modnames == o.modnames }
 
 pub uninterp spec fn code_u8(ip: int) -> u8;
 pub uninterp spec fn code_u16(ip: int) -> u16;
@@ -813,6 +815,9 @@ macro_rules! to_obj_kind {
   };
   ($o:expr, Instance) => {
     $o.to_instance()
+  };
+  ($o:expr, Enumerator) => {
+    $o.to_enumerator()
   };
   ($o:expr, String) => {
     $o.to_str()
